@@ -135,6 +135,9 @@ type c36Task struct {
 	dupAfterOn       bool // a duplicate EndTask arrived after a StartTracing that followed the first end
 	dupAfterOnOn     bool // ... and tracing was on when it arrived
 	dupAfterOnOff    bool // ... and tracing was off (again) when it arrived
+	postPlaceholder  bool // annotated after its end (and no EndTask since): a never-started placeholder in the tracer
+	postPoisoned     bool // ... which a StartTracing has seen
+	ghostDupBug      bool // ... and a duplicate EndTask arrived then (the input class of sigGhost)
 	tagsReq, tagsOpt []c36Ann
 	msReq, msOpt     []c36Ann
 }
@@ -227,6 +230,7 @@ func judge36On(c c36Case, be backend36) (vs []c34Verdict, st c36Stats) {
 					} else if t.started && t.ended {
 						// a finished task: nothing may change for it any more
 						t.onAfterEnd = true
+						t.postPoisoned = t.postPoisoned || t.postPlaceholder
 					} else if !t.started && t.placeholder {
 						t.poisoned = true
 					}
@@ -282,6 +286,8 @@ func judge36On(c c36Case, be backend36) (vs []c34Verdict, st c36Stats) {
 					// reset helpers). The model changes nothing; classes only.
 					t.dupEnds++
 					st.dupEnd = true
+					t.ghostDupBug = t.ghostDupBug || t.postPoisoned
+					t.postPlaceholder, t.postPoisoned = false, false
 					st.dupThird = st.dupThird || t.dupEnds >= 2
 					st.dupViaReset = st.dupViaReset || ev.Reset
 					if ev.T == t.e {
@@ -325,6 +331,7 @@ func judge36On(c c36Case, be backend36) (vs []c34Verdict, st c36Stats) {
 				t.placeholder = t.placeholder || !t.started
 				a := c36Ann{ID: ev.AID, TaskID: ev.ID, T: ev.T, What: ev.What}
 				if t.ended || t.endedUnstarted {
+					t.postPlaceholder = t.postPlaceholder || t.ended
 					t.tagsOpt = append(t.tagsOpt, a)
 					st.postEndAnn = true
 				} else {
@@ -337,6 +344,7 @@ func judge36On(c c36Case, be backend36) (vs []c34Verdict, st c36Stats) {
 				t.placeholder = t.placeholder || !t.started
 				a := c36Ann{ID: ev.AID, TaskID: ev.ID, T: ev.T, Kind: ev.Kind, What: ev.What}
 				if t.ended || t.endedUnstarted {
+					t.postPlaceholder = t.postPlaceholder || t.ended
 					t.msOpt = append(t.msOpt, a)
 					st.postEndAnn = true
 				} else {
@@ -383,6 +391,20 @@ func judge36On(c c36Case, be backend36) (vs []c34Verdict, st c36Stats) {
 	for _, id := range ids {
 		t := tasks[id]
 		rows := rowsByID[id]
+		if t.ghostDupBug {
+			// the placeholder that an annotation after the end created was
+			// ended while marked: a row without kind/what/location is that
+			// placeholder's (sigGhost's class), the rest is judged as usual
+			var real []capRow
+			for _, w := range rows {
+				if w.s("Kind") == "" && w.s("What") == "" && w.s("Location") == "" {
+					fail(sigGhost, "id %d: the placeholder left by an annotation after the task's end has a trace row %v", id, w)
+				} else {
+					real = append(real, w)
+				}
+			}
+			rows = real
+		}
 		if len(rows) > 1 && t.started {
 			fail("recorded-twice", "task %d has %d rows in the trace table", id, len(rows))
 			continue
